@@ -2245,7 +2245,7 @@ fn drive_str(a: &Args, name: &str) -> Value {
                     "sort" => {
                         let kind = *rng.pick(&["lex", "radix", "by", "len"]);
                         let ok = s.sort(kind);
-                        json!({"op":"sort","o":o,"how":kind,"kind": if kind == "len" { "len" } else { "lex" },"ok":ok})
+                        json!({"op":"sort","o":o,"how":kind,"kind": if kind == "len" { "len" } else if kind == "by" { "custom" } else { "lex" },"ok":ok})
                     }
                     "clear" => {
                         s.clear();
@@ -2438,6 +2438,10 @@ fn child_drive(a: &Args) {
         drive_dq(a, &name)
     };
     child_summary(a, &name, &v);
+    // self-test of the crash path (--test_crash <subject>): the child dies by a signal after its work
+    if a.get("test_crash") == Some(name.as_str()) {
+        std::process::abort();
+    }
 }
 
 fn child_replay(a: &Args) {
